@@ -333,6 +333,18 @@ func (t *v2T) match(c *v2C, data []byte, o v2MatchOpts) *v2Res {
 			"r": rk[m.Confidence], "cb": v2Bits(m.Confidence), "sl": m.StartLine, "el": m.EndLine, "st": m.StartTokenIndex, "et": m.EndTokenIndex})
 	}
 	res.Ms, res.Total = ms, r.TotalInputLines
+	// what a call returns is the caller's: once projected, the driver scribbles on it (a caller that shifts line numbers to the
+	// enclosing file, renames, sorts).  Nothing the library hands out later may show these marks.
+	for _, m := range r.Matches {
+		m.StartLine += 40000
+		m.EndLine += 40000
+		m.StartTokenIndex, m.EndTokenIndex = -7, -7
+		m.Confidence = -1
+		m.Name, m.Variant = "scribbled-by-the-caller", "scribbled"
+	}
+	for i, j := 0, len(r.Matches)-1; i < j; i, j = i+1, j-1 {
+		r.Matches[i], r.Matches[j] = r.Matches[j], r.Matches[i]
+	}
 	if o.quiet {
 		return res
 	}
@@ -353,7 +365,7 @@ func (t *v2T) match(c *v2C, data []byte, o v2MatchOpts) *v2Res {
 		wdoc = c.tokens(data)
 	}
 	ev := map[string]interface{}{"ev": "match", "c": c.id, "in": in, "api": api, "err": "nil",
-		"nlines": bytes.Count(data, []byte("\n")) + 1, "nwords": len(wdoc.Tokens),
+		"nlines": bytes.Count(data, []byte("\n")) + 1, "nwords": len(wdoc.Tokens), "nfields": len(bytes.Fields(data)),
 		"thr": rk[c.thr], "one": rk[1.0], "total": r.TotalInputLines, "ms": ms,
 		"unchanged": v2Intact(cp, data), "docs": []int{d0, len(c.c.docs)}, "dict": []int{w0, len(c.c.dict.words)},
 		"memo": o.memo, "scored": o.scored, "lines": []int{}, "hash": v2Hash(data)}
@@ -363,7 +375,7 @@ func (t *v2T) match(c *v2C, data []byte, o v2MatchOpts) *v2Res {
 	if o.scored {
 		ls := make([]int, len(wdoc.Tokens))
 		for i, tk := range wdoc.Tokens {
-			ls[i] = tk.Line
+			ls[i] = int(tk.Line)
 		}
 		ev["lines"] = ls
 		for _, se := range scoreEvents {
@@ -444,7 +456,7 @@ func (t *v2T) emitMatch(c *v2C, data []byte, r Results, memo, api string) {
 	}
 	wdoc := c.tokens(data)
 	t.emit(map[string]interface{}{"ev": "match", "c": c.id, "in": t.newIn(), "api": api, "err": "nil",
-		"nlines": bytes.Count(data, []byte("\n")) + 1, "nwords": len(wdoc.Tokens),
+		"nlines": bytes.Count(data, []byte("\n")) + 1, "nwords": len(wdoc.Tokens), "nfields": len(bytes.Fields(data)),
 		"thr": rk[c.thr], "one": rk[1.0], "total": r.TotalInputLines, "ms": ms,
 		"unchanged": true, "docs": []int{len(c.c.docs), len(c.c.docs)}, "dict": []int{len(c.c.dict.words), len(c.c.dict.words)},
 		"memo": memo, "scored": false, "lines": []int{}, "hash": v2Hash(data)})
@@ -553,7 +565,7 @@ func (t *v2T) oovBlock(c *v2C, maxLines int) []byte {
 		// line or followed by more words (the joined word is out of vocabulary as well)
 		if t.rng.Intn(4) == 0 {
 			w := t.oovWord(c)
-			sb.WriteString(" " + w[:3] + "-\n" + w[3:])
+			sb.WriteString(" " + w[:3] + "-\n" + []string{"", "", "\n", "\n\n"}[t.rng.Intn(4)] + w[3:]) // sometimes blank lines follow the hyphen: the word still joins
 			if t.rng.Intn(2) == 0 {
 				sb.WriteString(" " + t.oovWord(c))
 			}
